@@ -125,7 +125,7 @@ func verifC01_Serve() {
 	target := verifString("entry.rewriteTarget", 2)
 	pathLimit := vLimitValue("pathLimit")
 	serverLimit := vLimitValue("serverLimit")
-	entry := &Path{PathPrefix: prefix, RewriteTarget: target, Backend: "backend", Methods: []string{"POST"}, ClientMaxBodySize: pathLimit}
+	entry := &Path{PathPrefix: prefix, RewriteTarget: target, Backend: "backend", Methods: []string{"POST", "HEAD"}, ClientMaxBodySize: pathLimit}
 	spec := &Spec{ClientMaxBodySize: serverLimit, XForwardedFor: verifBool("xForwardedFor"), Rules: []*Rule{{Paths: []*Path{entry}}}}
 	backend := &vBackend{status: int(verifInt("backendStatus", 200, 599)), respBody: verifBytes("respBody", verifChoose("respBodyLen", 3))}
 	mapper := &vBackendMapper{b: backend, missing: verifBool("backendMissing")}
@@ -137,7 +137,8 @@ func verifC01_Serve() {
 	m.reload(superSpec, mapper)
 
 	path := verifString("req.path", 3)
-	method := []string{"POST", "GET"}[verifChoose("req.method", 2)]
+	// the limits hold whatever the method: a HEAD request may carry a body as well
+	method := []string{"POST", "GET", "HEAD"}[verifChoose("req.method", 3)]
 	bodyLen := verifChoose("req.bodyLength", verifBound("maxBody")+1)
 	body := &vReqBody{data: verifBytes("req.body", bodyLen)}
 	declared := int64(-1)
@@ -166,7 +167,7 @@ func verifC01_Serve() {
 	case !pathMatches:
 		verifAssert(w.status == 404 && backend.calls == 0, "no-entry-matches-404")
 		verifCover("404")
-	case method != "POST":
+	case method == "GET":
 		verifAssert(w.status == 405 && backend.calls == 0, "method-mismatch-405")
 		verifCover("405")
 	case mapper.missing:
